@@ -45,6 +45,32 @@ pub(crate) fn reset_state() {
     });
 }
 
+#[cfg(feature = "verif-hooks")]
+pub(crate) fn verif_reset_state() {
+    state(|state| {
+        state.collecting.set(false);
+
+        #[cfg(feature = "finalization")]
+        state.finalizing.set(false);
+
+        state.dropping.set(false);
+        state.allocated_bytes.set(0);
+        state.executions_counter.set(0);
+    });
+}
+
+#[cfg(feature = "verif-hooks")]
+pub(crate) fn verif_state_flags() -> (bool, bool, bool) {
+    state(|state| {
+        #[cfg(feature = "finalization")]
+        let finalizing = state.finalizing.get();
+        #[cfg(not(feature = "finalization"))]
+        let finalizing = false;
+
+        (state.collecting.get(), finalizing, state.dropping.get())
+    })
+}
+
 pub(crate) struct State {
     collecting: Cell<bool>,
 
